@@ -8,6 +8,7 @@ import copy
 from typing import Protocol, runtime_checkable
 
 from ..prng import Rng
+from ..core import real
 from ..seams import CLOCK, ENTROPY, F, P, T, ScriptExecutionError, reset_world
 
 PID = 'C19'
@@ -632,7 +633,7 @@ def probe_registry(w):
     # interface set through add_contract acceptance on a scratch id
     for kind in sorted(SATISFIES):
         r = _outcome(lambda: F.add_contract(SCRATCH, w.contracts[kind]))
-        F.remove_contract(SCRATCH)
+        real('remove_contract', F.remove_contract, SCRATCH)
         expr = ['ok', None] if m.contract_ok(kind) else ['exc', 'ScriptExecutionError']
         if r != expr:
             bad.append(['interfaces/add_contract_acceptance', [kind, r], expr])
@@ -792,27 +793,27 @@ def apply_op(w, op, run):
         if k == 'reset_plugins':
             if len(m.plugins.get(scope, [])) >= 2:
                 run.probe('reset_with_ge2')
-            F.reset_plugins(scope)
+            real('reset_plugins', F.reset_plugins, scope)
             m.reset_plugins(scope)
         elif k == 'add_plugin':
-            F.add_plugin(scope, w.plugins[op['p']])
+            real('add_plugin', F.add_plugin, scope, w.plugins[op['p']])
             m.add_plugin(scope, op['p'])
         else:
-            F.remove_plugin(scope, w.plugins[op['p']])
+            real('remove_plugin', F.remove_plugin, scope, w.plugins[op['p']])
             m.remove_plugin(scope, op['p'])
         return 'ok'
     if k == 'add_sigext':
-        F.add_signature_extension(w.plugins[op['p']])
+        real('add_signature_extension', F.add_signature_extension, w.plugins[op['p']])
         m.add_plugin('signature_extensions', op['p'])
         return 'ok'
     if k == 'remove_sigext':
-        F.remove_signature_extension(w.plugins[op['p']])
+        real('remove_signature_extension', F.remove_signature_extension, w.plugins[op['p']])
         m.remove_plugin('signature_extensions', op['p'])
         return 'ok'
     if k == 'reset_sigext':
         if len(m.plugins.get('signature_extensions', [])) >= 2:
             run.probe('reset_with_ge2')
-        F.reset_signature_extensions()
+        real('reset_signature_extensions', F.reset_signature_extensions)
         m.reset_plugins('signature_extensions')
         return 'ok'
     if k == 'add_contract':
@@ -828,15 +829,15 @@ def apply_op(w, op, run):
             m.contracts[IDS[op['id']]] = op['c']
         return r[0]
     if k == 'remove_contract':
-        F.remove_contract(IDS[op['id']])
+        real('remove_contract', F.remove_contract, IDS[op['id']])
         m.contracts.pop(IDS[op['id']], None)
         return 'ok'
     if k == 'add_iface':
-        F.add_contract_interface(w.ifaces[op['i']])
+        real('add_contract_interface', F.add_contract_interface, w.ifaces[op['i']])
         m.ifaces.add(op['i'])
         return 'ok'
     if k == 'remove_iface':
-        F.remove_contract_interface(w.ifaces[op['i']])
+        real('remove_contract_interface', F.remove_contract_interface, w.ifaces[op['i']])
         m.ifaces.discard(op['i'])
         return 'ok'
     if k == 'add_alias':
